@@ -322,7 +322,7 @@ func loadSlices(g *VM) {
 	g.Set("golang.org/x/exp/slices.SortStableFunc", NewFunc(2, 0, func(vm *VM, args []Value) {
 		s := args[0].data()
 		slices.SortStableFunc(s, func(a, b Value) bool {
-			rets, err := g.Func(args[1], 1, a, b)
+			rets, err := vm.Func(args[1], 1, a, b) // vm, the VM value running the script: it knows how deep the calls are nested
 			if err != nil {
 				panic(err)
 			}
@@ -332,7 +332,7 @@ func loadSlices(g *VM) {
 	g.Set("golang.org/x/exp/slices.SortFunc", NewFunc(2, 0, func(vm *VM, args []Value) {
 		s := args[0].data()
 		slices.SortFunc(s, func(a, b Value) bool {
-			rets, err := g.Func(args[1], 1, a, b)
+			rets, err := vm.Func(args[1], 1, a, b) // vm, the VM value running the script: it knows how deep the calls are nested
 			if err != nil {
 				panic(err)
 			}
